@@ -91,7 +91,7 @@ class StdVector(Plugin):
         a = [unit.expr(x) for x in args]
         if name in ('size', 'empty', 'data', 'resize', 'reserve', 'clear', 'pop_back', 'pop_front'):
             return '%s_%s(%s)' % (cn, name, ', '.join([recv] + a))
-        if self.decls.get(cn) in self.abstract and name in ('begin', 'cbegin', 'rend', 'crend', 'end', 'cend', 'rbegin', 'crbegin', 'data', 'at'):
+        if self.decls.get(cn) in self.abstract and name in ('begin', 'cbegin', 'rend', 'crend', 'end', 'cend', 'rbegin', 'crbegin'):
             raise Unsupported('iterator/data access on a size-only container model (in %s)' % unit.cur)
         if name in ('begin', 'cbegin', 'rend', 'crend'): return '(%s->data)' % recv
         if name in ('end', 'cend', 'rbegin', 'crbegin'): return '(%s->data + %s->size)' % (recv, recv)
@@ -646,7 +646,7 @@ class OpaqueTypes(Plugin):
         return None
     def _scalar_it(self, unit, node):
         t = node.get('type', {})
-        return any(qt and re.search(r'_Rb_tree(_const)?_iterator<', qt) for qt in (t.get('desugaredQualType'), t.get('qualType')))
+        return any(qt and re.search(r'_Rb_tree(_const)?_iterator<|__detail::_Node_(const_)?iterator(_base)?<', qt) for qt in (t.get('desugaredQualType'), t.get('qualType')))
 
 
 class StdArray(Plugin):
